@@ -43,8 +43,11 @@ pub fn child(args: &[String]) {
     let mut d = if fresh { Driver::at(&path, true) } else { Driver::at(&path, false) };
     let _ = writeln!(ack, "start"); // memory created/opened
     for (i, op) in parse_ops(spec).iter().enumerate() {
+        let (size_b, pend_b, _, _) = memvid_core::verif_hooks::wal_stats(d.mem());
         let obs = d.step(op);
-        let _ = writeln!(ack, "{} {}", i, if obs.ok { "ok" } else { "err" });
+        let (size_a, pend_a) = if d.open_error.is_none() { let s = memvid_core::verif_hooks::wal_stats(d.mem()); (s.0, s.1) } else { (size_b, pend_b) };
+        // flags: g = the log region grew, a = the call ended with nothing pending (automatic checkpoint), p = records were pending before
+        let _ = writeln!(ack, "{} {} {}{}{}", i, if obs.ok { "ok" } else { "err" }, if size_a != size_b { "g" } else { "-" }, if pend_a == 0 { "a" } else { "-" }, if pend_b > 0 { "p" } else { "-" });
         if d.open_error.is_some() { break; }
     }
     let _ = writeln!(ack, "end");
@@ -72,7 +75,7 @@ pub fn run_child(dir: &Path, spec: &str, k: usize, fresh: bool, watch_all: bool)
     let mut acked = vec![]; let mut started = false; let mut ended = false;
     for l in acks.lines() {
         if l == "start" { started = true; } else if l == "end" { ended = true; }
-        else if let Some((i, r)) = l.split_once(' ') { if let Ok(i) = i.parse() { acked.push((i, r == "ok")); } }
+        else if let Some((i, r)) = l.split_once(' ') { if let Ok(i) = i.parse() { acked.push((i, r.starts_with("ok"))); } }
     }
     let trace = std::fs::read_to_string(dir.join("trace.txt")).unwrap_or_default();
     let nsys = trace.lines().filter(|l| !l.contains("resumed>") && !l.contains("+++") && !l.contains("---")).count();
@@ -80,3 +83,65 @@ pub fn run_child(dir: &Path, spec: &str, k: usize, fresh: bool, watch_all: bool)
 }
 
 pub fn dummy(_w: &mut dyn std::io::Write) { let _ = T::N(0); }
+
+// ---------------------------------------------------------------- protocol traces (strace -y)
+#[derive(Clone, Debug, PartialEq)]
+pub enum FsOp { OpenTmp, CopyToTmp, WriteTmp, FsyncTmp, RenameTmp, FsyncDir, WriteMem, FsyncMem, WriteOld, Ack }
+
+/// run the child (no injection) under `strace -y` and return the per-op protocol traces:
+/// element 0 = create, element i+1 = op i
+pub fn protocol_traces(dir: &Path, spec: &str) -> Vec<Vec<FsOp>> {
+    let exe = std::env::current_exe().expect("exe");
+    let path = dir.join("m.mv2"); let ackfile = dir.join("ack.txt");
+    let _ = std::fs::remove_file(&ackfile); let _ = std::fs::remove_file(&path);
+    let tr = dir.join("ytrace.txt");
+    let mut cmd = Command::new("strace");
+    cmd.arg("-f").arg("-y").arg("-qq").arg("-s").arg("0").arg("-o").arg(&tr)
+       .arg("-e").arg(format!("trace={},openat", SYSCALLS))
+       .arg(exe).arg("CRASH-child").arg(&path).arg(&ackfile).arg(spec).arg("fresh")
+       .env("RUST_BACKTRACE", "0").stdout(std::process::Stdio::null()).stderr(std::process::Stdio::null());
+    let _ = cmd.status();
+    let text = std::fs::read_to_string(&tr).unwrap_or_default();
+    let d = dir.to_string_lossy().to_string();
+    let mem = format!("<{}/m.mv2>", d); let memdel = format!("<{}/m.mv2 (deleted)>", d);
+    let tmp_prefix = format!("<{}/.m.mv2.", d); let dirp = format!("<{}>", d); let ackp = format!("<{}/ack.txt>", d);
+    let mut ops: Vec<FsOp> = vec![];
+    for line in text.lines() {
+        let l = match line.split_once(' ') { Some((_pid, rest)) => rest.trim_start(), None => continue };
+        if l.starts_with("<...") || l.starts_with("+++") || l.starts_with("---") { continue; }
+        let name = l.split('(').next().unwrap_or("");
+        let first_arg = l.split('(').nth(1).unwrap_or("").split(',').next().unwrap_or("");
+        let on = |p: &str| first_arg.contains(p);
+        match name {
+            "openat" => { if l.contains("\".m.mv2.") && l.contains("O_CREAT") { ops.push(FsOp::OpenTmp); } }
+            "write" | "pwrite64" | "writev" | "pwritev" | "ftruncate" | "fallocate" => {
+                if on(&ackp) { if ops.last() != Some(&FsOp::Ack) { ops.push(FsOp::Ack); } }
+                else if on(&tmp_prefix) { if !(name == "ftruncate" && ops.last() == Some(&FsOp::OpenTmp)) { ops.push(FsOp::WriteTmp); } }
+                else if on(&memdel) { ops.push(FsOp::WriteOld); }
+                else if on(&mem) { ops.push(FsOp::WriteMem); }
+            }
+            "copy_file_range" | "sendfile" => {
+                if l.contains(&tmp_prefix) && !l.trim_end().ends_with("= 0") && ops.last() != Some(&FsOp::CopyToTmp) { ops.push(FsOp::CopyToTmp); }
+            }
+            "fsync" | "fdatasync" => {
+                if on(&tmp_prefix) { ops.push(FsOp::FsyncTmp); } else if on(&mem) { ops.push(FsOp::FsyncMem); } else if on(&dirp) { ops.push(FsOp::FsyncDir); }
+            }
+            "rename" | "renameat" | "renameat2" => { if l.contains("\".m.mv2.") && l.contains("\"m.mv2\"") { ops.push(FsOp::RenameTmp); } }
+            _ => {}
+        }
+    }
+    // split at acks
+    let mut out = vec![vec![]];
+    for o in ops { if o == FsOp::Ack { out.push(vec![]); } else { out.last_mut().unwrap().push(o); } }
+    out
+}
+
+pub fn fsop_term(o: &FsOp, i: usize) -> T {
+    match o {
+        FsOp::OpenTmp => T::C("OpenTmp", vec![]), FsOp::CopyToTmp => T::C("CopyToTmp", vec![]),
+        FsOp::WriteTmp => T::C("WriteTmp", vec![T::C("W", vec![T::N(i as u128)])]), FsOp::FsyncTmp => T::C("FsyncTmp", vec![]),
+        FsOp::RenameTmp => T::C("RenameTmp", vec![]), FsOp::FsyncDir => T::C("FsyncDir", vec![]),
+        FsOp::WriteMem | FsOp::WriteOld => T::C("WriteMem", vec![T::C("W", vec![T::N(i as u128)])]), FsOp::FsyncMem => T::C("FsyncMem", vec![]),
+        FsOp::Ack => T::C("FsyncMem", vec![]),
+    }
+}
